@@ -170,7 +170,7 @@ impl Prop for PExec {
                 roots = vec![json!({"spell": str_to_json(&p), "node": k})];
             }
         }
-        let cfg = json!({"mode": "P", "min": if rng.chance(1, 4) { 1 } else { 0 }, "max": if rng.chance(1, 5) { 1 } else { super::pwalk::NOMAX }, "depth": rng.chance(1, 4), "sorted": true, "prune": []});
+        let cfg = json!({"mode": "P", "min": *rng.pick(&[0u64, 0, 0, 1, 2, 2]), "max": if rng.chance(1, 6) { 1 } else { super::pwalk::NOMAX }, "depth": rng.chance(1, 4), "sorted": true, "prune": []});
         let pre = match rng.below(4) {
             0 => json!({"p": "name", "pat": *rng.pick(&[vec![42u32], vec![42, 123, 125, 42], vec![63], vec![91, 97, 45, 122, 93, 42]])}),
             1 => json!({"p": "type", "c": *rng.pick(&["f", "d"])}),
